@@ -174,9 +174,13 @@ def o114(ctx):
                                     f"but the call binds transpose={tm.show(to_term(b['transpose']))}", node, m)
 
 
-def obligations():
+def _obligations():
     return [
         Obligation("O11.1", "read/write apply the same self-inverse axis permutation per option, same library per extension, narrowing, overwrite", o111, floor=30),
         Obligation("O11.2", "every extension write accepts is read back by the same library family", o112, floor=5),
         Obligation("O11.4", "em2mrc / mrc2em: data negated iff invert, default name = extension replaced, overwrite reaches write", o114, floor=60),
     ]
+
+
+def obligations():
+    return _obligations() + [effects_obligation("C11")]
